@@ -23,7 +23,8 @@ RULE = ("one case = one (general configuration, special case) pair + generated i
         "/ groups / task axis present) and the compared quantity is non-zero.")
 ASSUMPTIONS = ["solution-level pairs require both solves to converge (else inconclusive)"]
 
-FUNC_PAIRS = ["WeightedL1~L1", "WeightedMCP~MCP", "Enet(1)~L1", "GroupL2(singletons)~WeightedL1", "L2_1(T=1)~L1", "BlockMCP(T=1)~MCP",
+FUNC_PAIRS = ["WeightedL1~L1", "WeightedMCP~MCP", "Enet(1)~L1", "GroupL2(singletons)~WeightedL1", "L1GroupL2(singletons)~WeightedL1",
+              "L1GroupL2(wg=0)~WeightedL1", "L1GroupL2(wf=0)~GroupL2", "L2_1(T=1)~L1", "BlockMCP(T=1)~MCP",
               "BlockSCAD(T=1)~SCAD", "SLOPE(const)~L1", "MCP(gamma=inf)~L1", "SCAD(gamma=inf)~L1", "Huber(delta=inf)~Quadratic",
               "WeightedQuadratic(1)~Quadratic", "WeightedQuadratic(int)~replicated", "Cox:efron~breslow(no ties)",
               "QuadraticGroup~Quadratic", "LogisticGroup~Logistic", "QuadraticMultiTask(T=1)~Quadratic"]
@@ -54,6 +55,8 @@ def func_case(draw, pair):
     if not any(case["status"]):
         case["status"][0] = 1.
     case["groups"] = draw(gen.partition(p))
+    case["perm"] = list(draw(st.permutations(list(range(p)))))     # storage order of singleton groups
+    case["weights2"] = draw(gen.weights(p))
     return case
 
 
@@ -135,12 +138,42 @@ def check_func(case):
         if hasattr(G, "alpha_max") and hasattr(S_, "alpha_max"):
             cmp("alpha_max", G.alpha_max(g), S_.alpha_max(g), rel)
     elif pair == "GroupL2(singletons)~WeightedL1":
-        wt = np.array(case["weights"], float)
-        gp, gi, _ = groups_arrays([[j] for j in range(p)], p)
-        G, S_ = compiled(Pn.WeightedGroupL2(a, wt, gp, gi, pos)), compiled(Pn.WeightedL1(a, wt, pos))
+        wt = np.array(case["weights"], float)       # weight of feature j
+        perm = case.get("perm") or list(range(p))   # group k is the singleton [perm[k]]
+        gp, gi, _ = groups_arrays([[j] for j in perm], p)
+        G, S_ = compiled(Pn.WeightedGroupL2(a, wt[perm], gp, gi, pos)), compiled(Pn.WeightedL1(a, wt, pos))
+        z = w - s * g
         cmp("value", G.value(w_f), S_.value(w_f))
-        cmp("prox", [G.prox_1group(np.array([float(v)]), s, j)[0] for j, v in enumerate(w - s * g)], [S_.prox_1d(float(v), s, j) for j, v in enumerate(w - s * g)])
-        cmp("subdiff_distance", G.subdiff_distance(w_f, g, ws), S_.subdiff_distance(w_f, g, ws))
+        cmp("prox", [G.prox_1group(np.array([float(z[j])]), s, k)[0] for k, j in enumerate(perm)], [S_.prox_1d(float(z[j]), s, j) for j in perm])
+        # the group score takes the gradients of the groups of `ws` stacked in group order
+        cmp("subdiff_distance", G.subdiff_distance(w_f, g[perm].copy(), np.arange(p)), np.asarray(S_.subdiff_distance(w_f, g, ws))[perm])
+    elif pair == "L1GroupL2(singletons)~WeightedL1":
+        wf, wg_feat = np.array(case["weights"], float), np.array(case.get("weights2") or case["weights"], float)
+        perm = case.get("perm") or list(range(p))
+        gp, gi, _ = groups_arrays([[j] for j in perm], p)
+        G = compiled(Pn.WeightedL1GroupL2(a, wg_feat[perm], wf, gp, gi))
+        S_ = compiled(Pn.WeightedL1(a, wf + wg_feat, False))
+        z = w - s * g
+        cmp("value", G.value(w), S_.value(w))
+        cmp("prox", [G.prox_1group(np.array([float(z[j])]), s, k)[0] for k, j in enumerate(perm)], [S_.prox_1d(float(z[j]), s, j) for j in perm])
+    elif pair in ("L1GroupL2(wg=0)~WeightedL1", "L1GroupL2(wf=0)~GroupL2"):
+        groups = case["groups"]
+        gp, gi, _ = groups_arrays(groups, p)
+        z = w - s * g
+        if pair.startswith("L1GroupL2(wg=0)"):
+            wf = np.array(case["weights"], float)
+            G = compiled(Pn.WeightedL1GroupL2(a, np.zeros(len(groups)), wf, gp, gi))
+            S_ = compiled(Pn.WeightedL1(a, wf, False))
+            cmp("value", G.value(w), S_.value(w))
+            for k, idx in enumerate(groups):
+                cmp("prox", G.prox_1group(z[idx].copy(), s, k), [S_.prox_1d(float(z[j]), s, j) for j in idx])
+        else:
+            wgs = np.array((case.get("weights2") or case["weights"])[:len(groups)] + [1.] * max(0, len(groups) - p), float)
+            G = compiled(Pn.WeightedL1GroupL2(a, wgs, np.zeros(p), gp, gi))
+            S_ = compiled(Pn.WeightedGroupL2(a, wgs, gp, gi, False))
+            cmp("value", G.value(w), S_.value(w))
+            for k, idx in enumerate(groups):
+                cmp("prox", G.prox_1group(z[idx].copy(), s, k), S_.prox_1group(z[idx].copy(), s, k))
     elif pair in ("L2_1(T=1)~L1", "BlockMCP(T=1)~MCP", "BlockSCAD(T=1)~SCAD"):
         if pair.startswith("L2_1"):
             G, S_ = Pn.L2_1(a), Pn.L1(a)
